@@ -144,14 +144,30 @@ def slim(rs):
     return out
 
 
-def root_key(v):
-    """key of a violation that is not the consequence of another one: the class of what is stale, not the scenario"""
+# keys of the violation classes that correspond to the named deviations of specs/Resync (Dev): what is stale, not which scenario
+K_TOMB = "PerDocFresh:skipTomb:tombstoned-document-not-resynced"
+K_ROLES = "PerDocFresh:keepRoles:role-grants-of-a-rejected-evaluation-kept"
+K_LOSER = "PerDocFresh:loserLazy:non-winning-leaf-channels-not-refreshed"
+K_REGEN = "PrincipalsFresh:regenNoInval:principals-not-invalidated-with-regenerate_sequences"
+
+
+def root_key(v, regen_before=False):
+    """key of a violation that is not the consequence of another one"""
     if v["inv"] == "PerDocFresh":
         w = v["wit"]
-        return "PerDocFresh:%s:%s:%s:%s" % (v["fld"], w["role"], "tombstone" if w["st"] == "dead" else "live",
-                                            "rejected-by-new-fn" if w["rej"] else "accepted-by-new-fn")
+        # v["rw"]: the last resync rewrote the document.  The three deviation classes are narrow on purpose: anything
+        # else that is stale gets its own key
+        if w["role"] == "winner" and w["st"] == "dead" and not v["rw"]:
+            return K_TOMB
+        if w["role"] == "winner" and w["st"] == "live" and w["rej"] and v["fld"] == "rol" and w["asRaw"]:
+            return K_ROLES
+        if w["role"] == "loser" and v["fld"] == "ch" and not v["rw"]:
+            return K_LOSER
+        return "PerDocFresh:%s:%s:%s:%s:%s" % (v["fld"], w["role"], "tombstone" if w["st"] == "dead" else "live",
+                                               "rejected-by-new-fn" if w["rej"] else "accepted-by-new-fn",
+                                               "rewritten" if v["rw"] else "not-rewritten")
     if v["inv"] == "PrincipalsFresh":
-        return "PrincipalsFresh:principals-not-invalidated:regenerate_sequences=%s" % str(v["regen"]).lower()
+        return K_REGEN if regen_before else "PrincipalsFresh:principals-not-invalidated"
     if v["inv"] == "Idempotent":
         what = [n for n, x in (("stored", v["dstore"]), ("rewritten", v["dver"]), ("sequences", v["dctr"])) if x]
         return "Idempotent:%s:regenerate_sequences=%s" % ("+".join(what), str(v["regen"]).lower())
@@ -166,7 +182,19 @@ def explains(root, v):
         if root["fld"] == "ch":
             return root["d"] in v["docs"]
         return not v["accessEq"]
+    if v["inv"] == "Idempotent":      # the second run stored what the first one left stale
+        return root["l"] < v["l"] and root["d"] in v["dstore"]
     return False
+
+
+def dedup(vs, fields):
+    seen, res = set(), []
+    for v in vs:
+        k = json.dumps([v.get(f) for f in fields], sort_keys=True)
+        if k not in seen:
+            seen.add(k)
+            res.append(v)
+    return res
 
 
 def judge(ctx, tag, scns, jobs, per, viols):
@@ -176,82 +204,90 @@ def judge(ctx, tag, scns, jobs, per, viols):
         starts.append((pos, j["id"]))
         pos += len(per[j["id"]])
 
-    def scn_of(l):   # state at position l was produced by trace row l-1
-        sid = None
+    def scn_of(l):   # the state at position l was produced by trace row l-1
+        sid, first = None, 0
         for p, i in starts:
             if p <= l - 1:
-                sid = i
-        return sid
+                sid, first = i, p
+        return sid, first
 
     by = {}
     for v in viols:
-        by.setdefault(scn_of(v["l"]), []).append(v)
+        by.setdefault(scn_of(v["l"])[0], []).append(v)
     sc = {s["id"]: s for s in scns}
     jb = {j["id"]: j for j in jobs}
-    found = {}        # key -> list of (scenario id, root records, visible effects)
+    found = {}        # key -> list of (scenario id, root record, visible effects it accounts for)
     for sid, vs in sorted(by.items()):
-        if any(v["inv"] == "ScratchSound" for v in vs):
-            bad = next(v for v in vs if v["inv"] == "ScratchSound")
+        bad = next((v for v in vs if v["inv"] == "ScratchSound"), None)
+        if bad:
             raise Inconclusive("the from-scratch database does not hold what the table says (scenario %s): %s" % (json.dumps(sc[sid]), json.dumps(bad)[:800]))
-        roots = [v for v in vs if v["inv"] == "PerDocFresh"]
-        derived = [v for v in vs if v["inv"] in ("PrincipalsFresh", "FromScratch")]
-        unexplained = []
-        for v in derived:
-            if v["inv"] == "PrincipalsFresh" and not v["fromStored"]:
-                found.setdefault(root_key(v), []).append((sid, [v], [v]))      # its own root: the principal documents are stale
-            elif not any(explains(r, v) for r in roots):
-                # a visible-set difference that only reflects an access difference already keyed above is not a second finding
-                if v["inv"] == "FromScratch" and not v["accessEq"] and any(x["inv"] == "PrincipalsFresh" for x in vs):
-                    continue
-                unexplained.append(v)
+        # the same stale item is printed in every state that has it; keep the instance most users had observed by then
+        roots = dedup(sorted((v for v in vs if v["inv"] == "PerDocFresh"), key=lambda v: (-len(v["affected"]), v["l"])), ("d", "b", "fld", "got"))
+        princ = dedup([v for v in vs if v["inv"] == "PrincipalsFresh"], ("u", "chans", "roles", "want", "wantroles"))
+        scratch = dedup([v for v in vs if v["inv"] == "FromScratch"], ("u", "vis", "svis", "vrev", "svrev"))
+        idem = dedup([v for v in vs if v["inv"] == "Idempotent"], ("dstore", "dver", "dctr"))
+        derived = princ + scratch + idem
         for r in roots:
-            eff = [v for v in derived if explains(r, v)]
-            found.setdefault(root_key(r), []).append((sid, [r], eff))
-        for v in vs:
-            if v["inv"] == "Idempotent":
-                found.setdefault(root_key(v), []).append((sid, [v], [v]))
-        for v in unexplained:
-            key = "%s:unexplained:%s" % (v["inv"], json.dumps({k: sc[sid][k] for k in ("docs", "f1", "f2", "regen", "regen2", "warm", "adm")}, sort_keys=True))
-            found.setdefault(key, []).append((sid, [v], [v]))
+            found.setdefault(root_key(r), []).append((sid, r, [v for v in derived if explains(r, v)]))
+        for v in derived:
+            if any(explains(r, v) for r in roots):
+                continue
+            if v["inv"] == "PrincipalsFresh" and not v["fromStored"]:     # the principal documents themselves are stale
+                first = scn_of(v["l"])[1]
+                regen_before = any(r["a"] == "Resync" and r["regen"] for r in per[sid][:v["l"] - first])
+                found.setdefault(root_key(v, regen_before), []).append((sid, v, [v]))
+            elif v["inv"] == "FromScratch" and not v["accessEq"] and princ:
+                continue        # a visible-set difference that only mirrors an access difference keyed above
+            elif v["inv"] == "Idempotent":
+                found.setdefault(root_key(v), []).append((sid, v, [v]))
+            else:
+                key = "%s:unexplained:%s" % (v["inv"], json.dumps({k: sc[sid][k] for k in ("docs", "f1", "f2", "regen", "regen2", "warm", "adm")}, sort_keys=True))
+                found.setdefault(key, []).append((sid, v, [v]))
 
     def size(sid):
         return (sum(1 for x in sc[sid]["docs"].values() if x["k"] != "none"), len(jb[sid]["steps"]))
 
     for key, hits in sorted(found.items()):
-        vis = [h for h in hits if h[2]]
+        vis = [h for h in hits if h[2] or h[1].get("affected")]
+        nscn = len({h[0] for h in hits})
         if not vis:
             # stored but never observable by any user in this run: recorded, not a verdict (DESIGN 4.18 / task brief)
-            ctx.cov["stale_unobservable"] = ctx.cov.get("stale_unobservable", 0) + len(hits)
+            ctx.cov["stale_unobservable"] = ctx.cov.get("stale_unobservable", 0) + nscn
             ctx.notes.append("%s: stale in storage in %d scenario(s) of %s without an effect on any user's access or visible set (not reported); "
-                             "e.g. %s" % (key, len(hits), tag, json.dumps(sc[min(hits, key=lambda h: size(h[0]))[0]]["docs"])))
+                             "e.g. %s" % (key, nscn, tag, json.dumps(sc[min(hits, key=lambda h: size(h[0]))[0]]["docs"])))
             continue
-        sid, rs, eff = min(vis, key=lambda h: size(h[0]))
+        sid, r, eff = min(vis, key=lambda h: (size(h[0]), h[1]["l"]))
         s = sc[sid]
-        r = rs[0]
         if r["inv"] == "PerDocFresh":
-            what = ("after resync %s->%s document %s (%s) leaf %d stores %s %s where the new function gives %s" % (
-                s["f1"], s["f2"], r["d"], json.dumps(s["docs"][r["d"]]), r["b"], {"ch": "channels", "acc": "access grants", "rol": "role grants"}[r["fld"]],
-                json.dumps(r["got"]), json.dumps(r["want"])))
+            what = ("after resync %s->%s document %s (%s) leaf %d (%s, %s) stores %s %s where the new function gives %s" % (
+                s["f1"], s["f2"], r["d"], json.dumps(s["docs"][r["d"]]), r["b"], r["wit"]["role"],
+                "rejected by the new function" if r["wit"]["rej"] else "accepted by the new function",
+                {"ch": "channels", "acc": "access grants", "rol": "role grants"}[r["fld"]], json.dumps(r["got"]), json.dumps(r["want"])))
         elif r["inv"] == "PrincipalsFresh":
-            what = ("after resync %s->%s (regenerate_sequences=%s, principal caches warm=%s) a request of %s gets channels %s roles %s, "
-                    "the resynced documents confer %s / %s" % (s["f1"], s["f2"], r["regen"], s["warm"], r["u"], json.dumps(r["chans"]),
-                                                                json.dumps(r["roles"]), json.dumps(r["want"]), json.dumps(r["wantroles"])))
+            what = ("after resync %s->%s (regenerate_sequences %s/%s, principal caches warm=%s) a request of %s gets channels %s roles %s; the "
+                    "resynced documents and admin grants confer %s / %s (stored grants are fresh: the principal documents were not invalidated)" % (
+                        s["f1"], s["f2"], s["regen"], s["regen2"], s["warm"], r["u"], json.dumps(r["chans"]), json.dumps(r["roles"]),
+                        json.dumps(r["want"]), json.dumps(r["wantroles"])))
         elif r["inv"] == "Idempotent":
             what = "a second resync (%s->%s, regenerate_sequences=%s) changed stored %s, rewrote %s, consumed %s sequences" % (
                 s["f1"], s["f2"], r["regen"], json.dumps(r["dstore"]), json.dumps(r["dver"]), r["dctr"])
         else:
             what = "%s fails with no stale stored value to account for it: %s" % (r["inv"], json.dumps(r)[:500])
         seen = "; ".join(effect_text(v) for v in eff[:3] if v is not r)
-        report_violation(ctx, key, "real database breaks %s: %s%s [%d of %d scenarios in %s]" % (
-            r["inv"], what, ("; visible: " + seen) if seen else "", len(vis), len(jobs), tag),
-            {"scenario": s, "steps": jb[sid]["steps"], "violations": rs + [v for v in eff if v is not r], "real_trace": slim(per[sid]),
-             "scenarios_hit": len(vis)})
+        if r.get("affected"):
+            seen = ("users %s saw the leaf listed / fetchable contrary to what the new function confers" % json.dumps(r["affected"])) + (("; " + seen) if seen else "")
+        report_violation(ctx, key, "real database breaks %s: %s%s [%d of %d scenarios of %s]" % (
+            r["inv"], what, ("; visible: " + seen) if seen else "", len({h[0] for h in vis}), len(jobs), tag),
+            {"scenario": s, "steps": jb[sid]["steps"], "violations": [r] + [v for v in eff if v is not r], "real_trace": slim(per[sid]),
+             "scenarios_hit": len({h[0] for h in vis})})
 
 
 def effect_text(v):
     if v["inv"] == "PrincipalsFresh":
         return "request of %s returns channels %s roles %s instead of %s / %s" % (v["u"], json.dumps(v["chans"]), json.dumps(v["roles"]),
                                                                                json.dumps(v["want"]), json.dumps(v["wantroles"]))
+    if v["inv"] == "Idempotent":
+        return "a second resync changed stored %s, rewrote %s" % (json.dumps(v["dstore"]), json.dumps(v["dver"]))
     if v["inv"] == "FromScratch":
         return "%s sees documents %s revisions %s, in the from-scratch database %s / %s" % (v["u"], json.dumps(v["vis"]), json.dumps(v["vrev"]),
                                                                                            json.dumps(v["svis"]), json.dumps(v["svrev"]))
